@@ -391,6 +391,9 @@ def run_unit(unit):
         from . import c10json
         yield from c10json.run_unit(unit)
         return
+    if unit.get('harness') == 'addon-table-heading':
+        yield from run_addon_heading(unit)
+        return
     kind, L, T, K, x, mode = unit['kind'], unit['L'], unit['T'], unit['K'], unit['variant'], unit['mode']
     cfg = c09.params_for(kind, L, T, K, x)
     desc = {'kind': kind, 'L': L, 'T': T, 'K': K, 'variant': x, 'rendering': mode}
@@ -541,7 +544,52 @@ def units(tier, seed):
             us.append({'kind': k, 'L': L, 'T': T, 'K': K, 'variant': x, 'mode': mode})
     from . import c10json
     us += c10json.units(tier)
+    us.append({'harness': 'addon-table-heading'})
     return us
+
+
+def run_addon_heading(unit):
+    """EXTENDED ECONOMIC PROFILE (add-on section): the client attaches hard-coded column headers to this table.  The units in those headers
+    must be the units the report's heading prints.  The heading text is made of unit strings only (no figure enters it), so one run of the
+    real add-on writer per configuration covers every numeric input; the add-on section writer itself is otherwise outside (DESIGN F)."""
+    import contextlib
+    import os
+    import shutil
+    import tempfile
+    title = key = 'EXTENDED ECONOMIC PROFILE'
+    for kind, L, T, K in (('electricity', 2, 2, 1), ('cogen-topping', 2, 1, 1)):      # (with >= 2 construction years the pinned add-on writer fails before the table: DESIGN G, robustness)
+        cfg = c09.params_for(kind, L, T, K, {'addon': 1})
+        desc = {'harness': 'addon-table-heading', 'kind': kind, 'L': L, 'T': T, 'K': K}
+        log = harness.UnitLog(desc)
+        m = c09.prepared(cfg).reset()
+        d = tempfile.mkdtemp(prefix='symx_c10a_')
+        try:
+            path = os.path.join(d, 'r.out')
+            m.outputs.output_file = m.addoutputs.output_file = path
+            from geophires_x import Outputs as O
+            with contextlib.redirect_stdout(io.StringIO()), shim.shadow((O, 'print_outputs_rich', lambda *a, **k: None)):
+                m.outputs.PrintOutputs(m)
+                try:
+                    m.addoutputs.PrintOutputs(m)
+                except SystemExit:
+                    pass       # the writer gave up: judged below (no table)
+            text = open(path).read()
+            prof = GR.GeophiresXResult(path).result.get(key)
+        finally:
+            shutil.rmtree(d, ignore_errors=True)
+        log['paths'] += 1
+        log['reachable'] += 1
+        hc = [u for h in (prof[0] if prof else []) for u in re.findall(r'\(([^()]*)\)', str(h))]
+        hr = heading_units(text, title)
+        for name, ok in (('the add-on table is printed and extracted', bool(prof) and bool(hr)),
+                         (f'table "{key}": the column units the client returns are the units printed in the table heading', hc == hr)):
+            log['obligations'] += 1
+            if ok:
+                log['discharged'] += 1
+            else:
+                log['cex'].append({'obligation': name, 'finding': None, 'config': desc, 'reproduced': True, 'inputs': {},
+                                   'detail': {'client column units': hc, 'units printed in the heading': hr}, 'how': 'native (heading text is value-independent)', 'attempts': []})
+        yield log.result()
 
 
 def replay(cex):
